@@ -54,6 +54,14 @@ def make_null_based_recorder(name):
     return NullBasedRec(name)
 
 
+class FalsyRec(RecObserver):
+    """A recording observer whose truth value is False (it has a length - the number of failures seen so far - or counts as 'empty' like a
+    Counter-based one): `observer or default` is not `observer if observer is not None else default`."""
+
+    def __len__(self):
+        return sum(1 for t in self.trace if t[2] == "failed")
+
+
 class FlakyNotify(RecObserver):
     """records, then raises in the j-th `completed` notification"""
 
